@@ -249,7 +249,9 @@ psutil_convert_ipaddr(struct sockaddr *addr, int family) {
             return Py_None;
         }
         else {
-            return Py_BuildValue("s", buf);
+            // A link-local IPv6 address ends with "%<NIC name>", which
+            // is not necessarily UTF-8.
+            return PyUnicode_DecodeFSDefault(buf);
         }
     }
 #ifdef PSUTIL_LINUX
@@ -301,6 +303,7 @@ psutil_net_if_addrs(PyObject* self, PyObject* args) {
 
     PyObject *py_retlist = PyList_New(0);
     PyObject *py_tuple = NULL;
+    PyObject *py_ifname = NULL;
     PyObject *py_address = NULL;
     PyObject *py_netmask = NULL;
     PyObject *py_broadcast = NULL;
@@ -347,9 +350,13 @@ psutil_net_if_addrs(PyObject* self, PyObject* args) {
 
         if ((py_broadcast == NULL) || (py_ptp == NULL))
             goto error;
+        // NIC names are not necessarily UTF-8.
+        py_ifname = PyUnicode_DecodeFSDefault(ifa->ifa_name);
+        if (! py_ifname)
+            goto error;
         py_tuple = Py_BuildValue(
-            "(siOOOO)",
-            ifa->ifa_name,
+            "(OiOOOO)",
+            py_ifname,
             family,
             py_address,
             py_netmask,
@@ -362,6 +369,7 @@ psutil_net_if_addrs(PyObject* self, PyObject* args) {
         if (PyList_Append(py_retlist, py_tuple))
             goto error;
         Py_CLEAR(py_tuple);
+        Py_CLEAR(py_ifname);
         Py_CLEAR(py_address);
         Py_CLEAR(py_netmask);
         Py_CLEAR(py_broadcast);
@@ -376,6 +384,7 @@ error:
         freeifaddrs(ifaddr);
     Py_DECREF(py_retlist);
     Py_XDECREF(py_tuple);
+    Py_XDECREF(py_ifname);
     Py_XDECREF(py_address);
     Py_XDECREF(py_netmask);
     Py_XDECREF(py_broadcast);
@@ -390,7 +399,7 @@ error:
  */
 static PyObject *
 psutil_net_if_mtu(PyObject *self, PyObject *args) {
-    char *nic_name;
+    PyObject *py_nic_name = NULL;
     int sock = -1;
     int ret;
 #ifdef PSUTIL_SUNOS10
@@ -399,18 +408,25 @@ psutil_net_if_mtu(PyObject *self, PyObject *args) {
     struct ifreq ifr;
 #endif
 
-    if (! PyArg_ParseTuple(args, "s", &nic_name))
+    // NIC names are not necessarily UTF-8.
+    if (! PyArg_ParseTuple(args, "O&", PyUnicode_FSConverter, &py_nic_name))
         return NULL;
+#ifdef PSUTIL_SUNOS10
+    PSUTIL_STRNCPY(lifr.lifr_name, PyBytes_AsString(py_nic_name),
+                   sizeof(lifr.lifr_name));
+#else
+    PSUTIL_STRNCPY(ifr.ifr_name, PyBytes_AsString(py_nic_name),
+                   sizeof(ifr.ifr_name));
+#endif
+    Py_DECREF(py_nic_name);
 
     sock = socket(AF_INET, SOCK_DGRAM, 0);
     if (sock == -1)
         goto error;
 
 #ifdef PSUTIL_SUNOS10
-    PSUTIL_STRNCPY(lifr.lifr_name, nic_name, sizeof(lifr.lifr_name));
     ret = ioctl(sock, SIOCGIFMTU, &lifr);
 #else
-    PSUTIL_STRNCPY(ifr.ifr_name, nic_name, sizeof(ifr.ifr_name));
     ret = ioctl(sock, SIOCGIFMTU, &ifr);
 #endif
     if (ret == -1)
@@ -451,7 +467,7 @@ append_flag(PyObject *py_retlist, const char * flag_name)
  */
 static PyObject *
 psutil_net_if_flags(PyObject *self, PyObject *args) {
-    char *nic_name;
+    PyObject *py_nic_name = NULL;
     int sock = -1;
     int ret;
     struct ifreq ifr;
@@ -461,8 +477,12 @@ psutil_net_if_flags(PyObject *self, PyObject *args) {
     if (py_retlist == NULL)
         return NULL;
 
-    if (! PyArg_ParseTuple(args, "s", &nic_name))
+    // NIC names are not necessarily UTF-8.
+    if (! PyArg_ParseTuple(args, "O&", PyUnicode_FSConverter, &py_nic_name))
         goto error;
+    PSUTIL_STRNCPY(ifr.ifr_name, PyBytes_AsString(py_nic_name),
+                   sizeof(ifr.ifr_name));
+    Py_DECREF(py_nic_name);
 
     sock = socket(AF_INET, SOCK_DGRAM, 0);
     if (sock == -1) {
@@ -470,7 +490,6 @@ psutil_net_if_flags(PyObject *self, PyObject *args) {
         goto error;
     }
 
-    PSUTIL_STRNCPY(ifr.ifr_name, nic_name, sizeof(ifr.ifr_name));
     ret = ioctl(sock, SIOCGIFFLAGS, &ifr);
     if (ret == -1) {
         psutil_PyErr_SetFromOSErrnoWithSyscall("ioctl(SIOCGIFFLAGS)");
@@ -637,19 +656,22 @@ error:
  */
 static PyObject *
 psutil_net_if_is_running(PyObject *self, PyObject *args) {
-    char *nic_name;
+    PyObject *py_nic_name = NULL;
     int sock = -1;
     int ret;
     struct ifreq ifr;
 
-    if (! PyArg_ParseTuple(args, "s", &nic_name))
+    // NIC names are not necessarily UTF-8.
+    if (! PyArg_ParseTuple(args, "O&", PyUnicode_FSConverter, &py_nic_name))
         return NULL;
+    PSUTIL_STRNCPY(ifr.ifr_name, PyBytes_AsString(py_nic_name),
+                   sizeof(ifr.ifr_name));
+    Py_DECREF(py_nic_name);
 
     sock = socket(AF_INET, SOCK_DGRAM, 0);
     if (sock == -1)
         goto error;
 
-    PSUTIL_STRNCPY(ifr.ifr_name, nic_name, sizeof(ifr.ifr_name));
     ret = ioctl(sock, SIOCGIFFLAGS, &ifr);
     if (ret == -1)
         goto error;
